@@ -491,7 +491,195 @@ func (e *EK) refine(v ssa.Value, k Kinds, facts factSet) Kinds {
 			}
 		}
 	}
+	// a kind predicate applied to v: `if isControlFlow(err)`
+	for f := range facts {
+		call, ok := f.cond.(*ssa.Call)
+		if !ok {
+			continue
+		}
+		g := call.Call.StaticCallee()
+		if g == nil || call.Call.IsInvoke() {
+			continue
+		}
+		for j, a := range call.Call.Args {
+			if a != v {
+				continue
+			}
+			if mask, ok := e.kindPredicate(g, j); ok {
+				if f.truth {
+					k &= mask
+				} else {
+					k &^= mask
+				}
+			}
+		}
+	}
 	return k
+}
+
+var kindPredCache = map[*ssa.Function]map[int]*Kinds{}
+
+// kindPredicate: g is a pure boolean function whose answer depends only on which error its j-th
+// parameter is — comparisons of the parameter with nil and with the sentinels decide every branch.
+// mask = the kinds for which it answers true; every other kind (any non-sentinel error included)
+// gets false, otherwise g is not accepted.
+func (e *EK) kindPredicate(g *ssa.Function, j int) (Kinds, bool) {
+	if m, ok := kindPredCache[g]; ok {
+		if r, ok := m[j]; ok {
+			if r == nil {
+				return 0, false
+			}
+			return *r, true
+		}
+	} else {
+		kindPredCache[g] = map[int]*Kinds{}
+	}
+	kindPredCache[g][j] = nil
+	if len(g.Blocks) == 0 || j >= len(g.Params) || !e.P.InModule(g) {
+		return 0, false
+	}
+	res := g.Signature.Results()
+	if res.Len() != 1 || !isBoolType(res.At(0).Type()) || !isErrorType(g.Params[j].Type()) {
+		return 0, false
+	}
+	prm := g.Params[j]
+	// purity: nothing but comparisons, loads of globals, branches, phis
+	pure := true
+	allInstrs(g, func(in ssa.Instruction) {
+		switch y := in.(type) {
+		case *ssa.BinOp, *ssa.If, *ssa.Jump, *ssa.Phi, *ssa.Return, *ssa.DebugRef:
+		case *ssa.UnOp:
+			if y.Op == token.MUL {
+				if _, isG := y.X.(*ssa.Global); !isG {
+					pure = false
+				}
+			} else if y.Op != token.NOT {
+				pure = false
+			}
+		default:
+			pure = false
+		}
+	})
+	if !pure {
+		return 0, false
+	}
+	// the cases: nil, each sentinel, any other error (bit 0 of `other`)
+	type kcase struct {
+		bit   Kinds
+		other bool
+	}
+	cases := []kcase{{bit: KNil}}
+	for _, sg := range e.sentinels {
+		cases = append(cases, kcase{bit: e.sentBit[sg]})
+	}
+	cases = append(cases, kcase{other: true})
+	var mask Kinds
+	for _, kc := range cases {
+		var evalB func(v ssa.Value, from *ssa.BasicBlock, d int) (bool, bool)
+		evalB = func(v ssa.Value, from *ssa.BasicBlock, d int) (bool, bool) {
+			if d > 8 {
+				return false, false
+			}
+			if b, ok := constBool(v); ok {
+				return b, true
+			}
+			switch y := v.(type) {
+			case *ssa.UnOp:
+				if y.Op == token.NOT {
+					b, ok := evalB(y.X, from, d+1)
+					return !b, ok
+				}
+			case *ssa.Phi:
+				if from == nil {
+					return false, false
+				}
+				for i, pr := range y.Block().Preds {
+					if pr == from {
+						return evalB(y.Edges[i], nil, d+1)
+					}
+				}
+			case *ssa.BinOp:
+				if y.Op != token.EQL && y.Op != token.NEQ {
+					return false, false
+				}
+				var other ssa.Value
+				switch {
+				case y.X == ssa.Value(prm):
+					other = y.Y
+				case y.Y == ssa.Value(prm):
+					other = y.X
+				default:
+					return false, false
+				}
+				eq := false
+				if isNilConst(other) {
+					eq = kc.bit == KNil && !kc.other
+				} else if sg := globalLoaded(other); sg != nil {
+					b, isSent := e.sentBit[sg]
+					if !isSent {
+						return false, false
+					}
+					eq = !kc.other && kc.bit == b
+				} else {
+					return false, false
+				}
+				if y.Op == token.NEQ {
+					eq = !eq
+				}
+				return eq, true
+			}
+			return false, false
+		}
+		b := g.Blocks[0]
+		var from *ssa.BasicBlock
+		answer, decided := false, false
+		for steps := 0; steps < 200; steps++ {
+			last := b.Instrs[len(b.Instrs)-1]
+			var next *ssa.BasicBlock
+			switch y := last.(type) {
+			case *ssa.Return:
+				// a phi result is resolved against the edge we arrived on
+				v := y.Results[0]
+				if ph, ok := v.(*ssa.Phi); ok && ph.Block() == b {
+					answer, decided = evalB(ph, from, 0)
+				} else {
+					answer, decided = evalB(v, from, 0)
+				}
+			case *ssa.Jump:
+				next = b.Succs[0]
+			case *ssa.If:
+				cv, ok := evalB(y.Cond, from, 0)
+				if !ok {
+					return 0, false
+				}
+				if cv {
+					next = b.Succs[0]
+				} else {
+					next = b.Succs[1]
+				}
+			default:
+				return 0, false
+			}
+			if next == nil {
+				break
+			}
+			from, b = b, next
+		}
+		if !decided {
+			return 0, false
+		}
+		if kc.other {
+			if answer {
+				return 0, false // true for arbitrary errors: not a sentinel predicate
+			}
+			continue
+		}
+		if answer {
+			mask |= kc.bit
+		}
+	}
+	kindPredCache[g][j] = &mask
+	return mask, true
 }
 
 // KindsAt: kinds of v under a set of facts.
